@@ -20,7 +20,7 @@ use futures_util::lock::{Mutex as AsyncMutex, MutexGuard};
 use futures_util::stream::{FuturesUnordered, Stream, StreamExt, once};
 use futures_util::{
     Future, FutureExt,
-    future::{BoxFuture, Shared},
+    future::{BoxFuture, Either, Shared, select},
 };
 use parking_lot::Mutex;
 #[cfg(feature = "serde")]
@@ -355,7 +355,22 @@ impl<P: ConnectionProvider> PoolState<P> {
             // error) — used to avoid double-penalizing them.
             let mut completed = SmallVec::<[IpAddr; 2]>::new();
 
-            while let Some((server, result)) = requests.next().await {
+            // An attempt that started before the deadline must not carry the request past it.
+            let mut expired = Box::pin(
+                <<P as ConnectionProvider>::RuntimeProvider as RuntimeProvider>::Timer::delay_for(
+                    deadline.saturating_duration_since(Instant::now()),
+                ),
+            );
+
+            loop {
+                let next = match select(requests.next(), &mut expired).await {
+                    Either::Left((next, _)) => next,
+                    Either::Right(_) => return Err(NetError::Timeout),
+                };
+                let Some((server, result)) = next else {
+                    break;
+                };
+
                 completed.push(server.ip());
                 let e = match result {
                     Ok(response) if response.truncation => {
